@@ -217,15 +217,15 @@ def finish(a, mod, jobs, results, known, root, seed, t0, partial=False):
         path = os.path.join(outdir, '%s_%s_%d.json' % (prop, fn.harness.name, n))
         with open(path, 'w') as f:
             json.dump({'property': prop, 'harness': fn.__name__, 'params': params,
-                       'label': v['label'], 'model': v['model'], 'detail': v['detail']}, f, indent=1)
+                       'label': v['label'], 'model': v['model'], 'detail': v['detail']}, f, indent=1, default=str)
         lines.append('VIOLATION property=%s replay=%s' % (prop, path))
         lines.append('  harness=%s label=%s inputs=%s %s' % (
-            job_label(jobs[idx]), v['label'], json.dumps(v['model']), v['detail'][:300].replace('\n', ' | ')))
+            job_label(jobs[idx]), v['label'], json.dumps(v['model'], default=str), v['detail'][:300].replace('\n', ' | ')))
     for k in known:
         if k['id'] in known_seen:
             where, m = known_seen[k['id']]
             print('KNOWN-FINDING: property=%s %s (reproduced by %s with %s)' % (
-                prop, k['what'], where, json.dumps(m)))
+                prop, k['what'], where, json.dumps(m, default=str)))
         elif not partial:
             print('note: listed finding no longer reproduces: property=%s %s' % (prop, k['what']))
     if violations:
